@@ -54,6 +54,11 @@ lists = {
  # 0, 1, 2 captures, some of which do not take part in the match (optional group, alternative not taken)
  "X_ReplPats": ["a", "(x)?a", "(a)|(b)", "(?:(x)|a)(b)?", "(a)(x)?", "((x)|a)", "(x)?(a)?b", "(?:(a)|b)*", "(x)*a", "a(?:(b)|(c))"],
  "X_ReplSubj": ["ab", "cab", "ba", "xab", "b", "aab", "cabab", "", "ac", "bca"],
+ # family "replfn": what a function replaceValue returns (strings; other values are listed in C10.tla)
+ "X_FnRet": ["$$", "$&", "$`", "$'", "$1", "$2", "$01", "$10", "$0", "x$&y$1z", "", "$", "a"],
+ "X_FnPats": ["a", "(a)(b)?", "(x)?a", "b|(a)", "a*"],
+ "X_FnSearch": ["a", "ab", "", "$&", "zz"],
+ "X_FnSubj": ["ab", "cab", "aab", "b", "caba", "a$&b"],
  "X_Repls": ["", "x", "$$", "$&", "$`", "$'", "$1", "$2", "$01", "$02", "$1a", "$10", "$0", "$00", "$", "$x", "x$", "$$1", "$$$1", "[$&]", "$1$2", "$'$`", "$&$&", "$1$", "$+", "$_", "$<", "$12", "$11x", "$012"],
 }
 out = ["---- MODULE C10Str ----", "(* GENERATED by gen_c10str.py - do not edit *)"]
